@@ -460,6 +460,9 @@ def _put_one_constant(
     if (value < 0 if isinstance(value, (int, float)) else value.imag < 0 if isinstance(value, complex) else False):
         raise NodeError('Constant.value cannot be negative')
 
+    if (value is None or isinstance(value, bool)) and (parent := self.parent) and parent.a.__class__ is MatchValue:
+        raise NodeError(f'MatchValue cannot be {value}, that is a MatchSingleton')
+
     src = repr(value)
 
     if isinstance(value, (float, complex)):
